@@ -65,13 +65,15 @@ type LogIn struct {
 type History struct {
 	Logs []LogIn `json:"logs"`
 	Pits []int64 `json:"pits"`
+	// address patterns for the listings filtered by account / source / destination / address (empty segment = any)
+	Patterns []string `json:"patterns,omitempty"`
 }
 
 // ---- generator ---------------------------------------------------------------------------------------------------------
 
 var (
 	uLedgers  = []string{"l0", "l1"}
-	uAccounts = []string{"world", "alice", "bob", "bank:fees", "zed"}
+	uAccounts = []string{"world", "users:001:wallet", "users:002:wallet", "bank:fees", "users:001"}
 	uAssets   = []string{"COIN", "EUR/2", "USD"}
 	uKeys     = []string{"k", "role", "tag"}
 	uValues   = []string{"a", "b", "c"}
@@ -257,6 +259,29 @@ func genHistory(g *vx.Rng, maxLogs int) History {
 		}
 		h.Pits = append(h.Pits, t)
 	}
+	// address patterns: an address of the universe with some segments made wildcards, sometimes a segment more or less
+	pg := g.Fork()
+	for i := 0; i < 3; i++ {
+		segs := strings.Split(uAccounts[pg.Intn(len(uAccounts))], ":")
+		for j := range segs {
+			if pg.Chance(2, 5) {
+				segs[j] = ""
+			}
+		}
+		switch pg.Intn(8) {
+		case 0:
+			segs = append(segs, "")
+		case 1:
+			if len(segs) > 1 {
+				segs = segs[:len(segs)-1]
+			}
+		case 2:
+			segs = append([]string{""}, segs...)
+		case 3:
+			segs = append(segs, "wallet")
+		}
+		h.Patterns = append(h.Patterns, strings.Join(segs, ":"))
+	}
 	return h
 }
 
@@ -334,8 +359,16 @@ func main() {
 	for _, d := range docs {
 		var h History
 		if err := json.Unmarshal(d, &h); err != nil || len(h.Logs) == 0 {
-			// a replay written for the SQL-text check has no history
-			continue
+			// a replay of a listing difference wraps the history and names the pattern; one of the SQL-text check has no history
+			var w struct {
+				History History `json:"history"`
+				Pattern string  `json:"pattern"`
+			}
+			if json.Unmarshal(d, &w) != nil || len(w.History.Logs) == 0 {
+				continue
+			}
+			h = w.History
+			h.Patterns = append([]string{w.Pattern}, h.Patterns...)
 		}
 		runHistory(r, eng, h, "corpus")
 	}
